@@ -220,6 +220,21 @@ def run(prop, tier, seed, replay):
                 if d:
                     ck.add_tie_break("cf impl vs generated model", {"diff": d, "request": reqs[ci]})
             good.append((case, cf, cd))
+            # the same estimator for containers DERIVED from a measurement (every bin / patch selected, scaled by 1): which terms
+            # are present — hence which estimator applies — must survive the derivation
+            for how, derive in (("bins[:]", lambda x: x.bins[0:B]), ("patches[:]", lambda x: x.patches[0:N]), ("* 1.0", lambda x: x * 1.0),
+                                ("first bin", lambda x: x.bins[0])):
+                try:
+                    cd2 = derive(cf).sample()
+                except Exception as e:  # noqa: BLE001
+                    ck.add_violation(f"sample() of a CorrFunc derived by {how} raised {type(e).__name__}: {e}", {"kind": "cf", "request": reqs[ci]})
+                    break
+                ref_d, ref_s = (cd.data[:1], cd.samples[:, :1]) if how == "first bin" else (cd.data, cd.samples)
+                if not (np.array_equal(cd2.data, ref_d, equal_nan=True) and np.array_equal(cd2.samples, ref_s, equal_nan=True)):
+                    ck.add_violation(f"sample() of a CorrFunc with the members {sorted(cf.to_dict())} derived by {how} differs from the "
+                                     f"estimate of the measurement itself (members after the derivation: {sorted(derive(cf).to_dict())})",
+                                     {"kind": "cf", "request": reqs[ci], "derived_by": how})
+                    break
 
     # ---- n(z) formula ----------------------------------------------------------------------
     nz_reqs, nz_cases = [], []
